@@ -9,7 +9,7 @@ VERIF = gen.VERIF
 ASSUME = {
     "_all": [
         "Verus/Z3/rustc are trusted; vstd's specifications of std (Vec, slice, Option, String, iterators) are trusted",
-        "extraction: /verif/vx copies item text verbatim by byte span and applies only the logged rewrite rules R1..R31 (DESIGN.md §12.2, §13.12, §13.13; R28 expands the one-rule list macro `delegate!` textually); the rules themselves are trusted to preserve meaning",
+        "extraction: /verif/vx copies item text verbatim by byte span and applies only the logged rewrite rules R1..R32 (DESIGN.md §12.2, §13.12, §13.13; R28 expands the one-rule list macro `delegate!` textually); the rules themselves are trusted to preserve meaning",
         "A-SIZE: DigitString size counters stay below 2^61 (ds_size_axiom); arguments `positions`/`position` are below 2^28 (preconditions)",
         "memory allocation never fails",
     ],
